@@ -495,14 +495,18 @@ int main(int argc, char **argv) {
     return rc;
   }
   if (m == "one-fmt" && argc == 3) {
+    // exactly the sweep's procedure (buffer pre-filled with 0x7f, so a missing terminator
+    // or bytes written past it are seen), for one value
     uint64_t b = strtoull(argv[2], 0, 16);
-    char buf[128]; memset(buf, 0, sizeof buf);
+    FmtStat st;
+    fmt_one(b, st);
+    char buf[128]; memset(buf, 0x7f, sizeof buf);
     pdtoa(from_bits(b), buf);
-    char *e = nullptr;
-    double y = strtod(buf, &e);
-    bool ok = strlen(buf) < 32 && *e == 0 && bits_of(y) == b;
-    printf("{\"bits\":\"%016" PRIx64 "\",\"text\":%s,\"back\":\"%016" PRIx64 "\",\"printf17\":\"%.17g\",\"ok\":%s}\n",
-           b, jstr(buf).c_str(), bits_of(y), from_bits(b), ok ? "true" : "false");
+    size_t len = strnlen(buf, sizeof buf);
+    std::string text(buf, std::min(len, (size_t)100));
+    bool ok = st.bad == 0;
+    printf("{\"bits\":\"%016" PRIx64 "\",\"text\":%s,\"terminated_within\":%zu,\"printf17\":\"%.17g\",\"ok\":%s}\n",
+           b, jstr(text).c_str(), len, from_bits(b), ok ? "true" : "false");
     return ok ? 0 : 1;
   }
   if (m == "one-parse" && argc == 3) {
